@@ -520,7 +520,7 @@ theorem AgreeOn_both (a b : State) (j : Nat) (c : Ctx) (op : Op) (h : AgreeOn a 
     · simp [effect, h.cb]
   · rename_i c' ns
     cases ht
-    apply AgreeOn_write a b j c _ h c.req (by simp [Ctx.refs]) (fun m => m.set timeoutHeader (decInt (Int.tdiv ns 1000000)))
+    apply AgreeOn_write a b j c _ h c.req (by simp [Ctx.refs]) (fun m => m.set timeoutHeader (decInt (wireMs ns)))
     · simp [effect, h.ca]
     · simp [effect, h.cb]
 
